@@ -174,6 +174,7 @@ func (t *toks) pairs() [][2]int {
 	}
 	return r
 }
+func (t *toks) more() bool { return t.i < len(t.t) }
 func (t *toks) end() {
 	if t.i != len(t.t) {
 		panic(badOp{})
@@ -889,9 +890,29 @@ func (r *Runner) exec(cmd string, t *toks) string {
 		return r.ok(fmt.Sprintf("d%d next=%d avail=%d ents=%s alive=%s", len(r.dumps)-1, d.Next, d.Available, strings.Join(es, ","), joinInts(al)))
 	case "load":
 		k := t.nat()
+		viaJSON := false
+		if t.more() {
+			if t.next() != "json" {
+				panic(badOp{})
+			}
+			viaJSON = true
+		}
 		t.end()
 		if k >= len(r.dumps) {
 			panic(badRef{})
+		}
+		if viaJSON {
+			// the dump as an application would persist it: through encoding/json and back
+			b, err := json.Marshal(&r.dumps[k])
+			if err != nil {
+				return r.ok("json-error " + err.Error())
+			}
+			var d ecs.EntityDump
+			if err := json.Unmarshal(b, &d); err != nil {
+				return r.ok("json-error " + err.Error())
+			}
+			w.LoadEntities(&d)
+			return r.ok("")
 		}
 		w.LoadEntities(&r.dumps[k])
 		return r.ok("")
